@@ -1168,12 +1168,14 @@ func (m *NetworkMachine) Export() (*am.Serialized, am.Schema, error) {
 	m.schemaMx.RLock()
 	defer m.schemaMx.RUnlock()
 
-	m.log(am.LogChanges, "[import] exported at %d ticks", m.time(nil))
+	// both locks are held: read the fields, the getters would lock again
+	mTime := slices.Clone(m.machTime)
+	m.log(am.LogChanges, "[import] exported at %d ticks", mTime)
 
 	return &am.Serialized{
 		ID:          m.id,
-		Time:        m.time(nil),
-		StateNames:  m.StateNames(),
+		Time:        mTime,
+		StateNames:  slices.Clone(m.stateNames),
 		MachineTick: m.machTick,
 		QueueTick:   m.queueTick,
 	}, m.schema.Clone(), nil
